@@ -222,8 +222,8 @@ def list_method(interp, lst, name, args, kwargs):
             return lst.items.pop(0)
         if not ctx.branch(z3.Length(lst.seq) > 0):
             raise PyRaise(ExcVal("IndexError", ident="pop from empty"))
-        head = Opaque(z3.simplify(lst.seq[0]))
-        lst.seq = z3.simplify(z3.SubSeq(lst.seq, 1, z3.Length(lst.seq) - 1))
+        head = Opaque(lst.seq[0])
+        lst.seq = z3.SubSeq(lst.seq, 1, z3.Length(lst.seq) - 1)
         return head
     if name == "pop":
         if lst.seq is None:
@@ -240,8 +240,8 @@ def list_method(interp, lst, name, args, kwargs):
         if not ctx.branch(z3.Length(lst.seq) > 0):
             raise PyRaise(ExcVal("IndexError", ident="pop from empty"))
         n = z3.Length(lst.seq)
-        last = Opaque(z3.simplify(lst.seq[n - 1]))
-        lst.seq = z3.simplify(z3.SubSeq(lst.seq, 0, n - 1))
+        last = Opaque(lst.seq[n - 1])
+        lst.seq = z3.SubSeq(lst.seq, 0, n - 1)
         return last
     if name == "sort":
         reverse = kwargs.get("reverse", False)
@@ -280,6 +280,24 @@ def list_method(interp, lst, name, args, kwargs):
         lst.widen()
         lst.seq = sort_by(lst.seq, lst.seq, rv)
         return None
+    if name == "remove":
+        # list.remove(x): the first element that IS x or compares equal to it (deques/lists compare by content)
+        if lst.seq is not None:
+            raise Unsupported("remove on a symbolic list")
+        x = args[0]
+        for idx, e in enumerate(list(lst.items)):
+            if e is x:
+                hit = True
+            elif isinstance(e, SList) and isinstance(x, SList) and e.kind == x.kind:
+                hit = ctx.branch(e.to_seq() == x.to_seq())
+            elif isinstance(e, Opaque) and isinstance(x, Opaque):
+                hit = ctx.branch(z3.Or(e.t == x.t, ctx.mk_eq(e.t, x.t)))
+            else:
+                hit = False
+            if hit:
+                lst.items.pop(idx)
+                return None
+        raise PyRaise(ExcVal("ValueError", ident="list.remove(x): x not in list"))
     if name == "__len__":
         return list_len(lst)
     if name == "extend":
@@ -353,7 +371,7 @@ def get_item(interp, o, k, site):
             i = z3.Length(o.seq) + k
         if not ctx.branch(z3.And(i >= 0, i < z3.Length(o.seq))):
             raise PyRaise(ExcVal("IndexError"))
-        return Opaque(z3.simplify(o.seq[i]))
+        return Opaque(o.seq[i])
     if isinstance(o, (dict, InstanceDict)):
         d = o.obj.f if isinstance(o, InstanceDict) else o
         from .odmodel import od_getitem
